@@ -136,6 +136,21 @@ OK_SCHED = ("Definition ok (c : list instr * Z * Z * Z * nat * list (nat * nat) 
             "  list_eqb Z.eqb (map fst (ret (replay p mn mx s0 d evs))) exp.\n")
 
 
+class _FakeTime:
+    """stands in for the `time` module inside diameter.node._helpers: time() returns a scripted clock that advances by
+    a little more than an hour per reading"""
+    def __init__(self, real, t):
+        self._real, self.t = real, t
+
+    def time(self):
+        v = self.t
+        self.t += 3700.5
+        return v
+
+    def __getattr__(self, name):
+        return getattr(self._real, name)
+
+
 # ---------------------------------------------------------------- sequential
 def _sequential(run, rng, thorough):
     H = _helpers()
@@ -168,10 +183,17 @@ def _sequential(run, rng, thorough):
                [rng.getrandbits(64) or 1 for _ in range(6)]
     sess_texts, sess_meta = [], []
     for s in starts64:
-        g = H.SessionGenerator("host%d.example.net" % (s % 7))
+        # the generator is created at time `base`; the clock moves on between the draws (the second field of a session
+        # id is the START time of the generator, whenever the id is drawn)
+        base = rng.getrandbits(31)
+        real_time = H.time
+        H.time = _FakeTime(real_time, base)
+        try:
+            g = H.SessionGenerator("host%d.example.net" % (s % 7))
+        finally:
+            H.time = real_time
         g._sequence = s
-        base = rng.getrandbits(32)
-        g._base_value = base.to_bytes(4, "big").hex()
+        H.time = _FakeTime(real_time, base + 3601)
         n = 200
         ids = []
         failed = None
@@ -182,6 +204,7 @@ def _sequential(run, rng, thorough):
             except Exception as e:   # noqa
                 failed = (i, e)
                 break
+        H.time = real_time
         if failed:
             run.violation("all-calls-return", {"generator": "session", "start": s, "draws": n, "draw": failed[0]},
                           f"{type(failed[1]).__name__}: {failed[1]}", "every draw returns a session id",
@@ -210,6 +233,25 @@ def _sequential(run, rng, thorough):
     init_texts, init_meta = [], []
     real_randint = H.random.randint
     try:
+        # without a start time the generator begins at a random value of the identifier range itself: 1 .. 2^32-1
+        for r in (1, MAX32, 0x80000000):
+            seen = {}
+
+            def fake0(lo, hi, r=r, seen=seen):
+                seen["b"] = (lo, hi)
+                return min(max(r, lo), hi)
+            H.random.randint = fake0
+            g = H.SequenceGenerator()
+            H.random.randint = real_randint
+            run.count(1, [("init0", r)])
+            case = {"generator": "hop-by-hop init (no start time)", "random": r}
+            if seen.get("b") != (1, MAX32) or not (1 <= g.sequence <= MAX32):
+                run.violation("e2e-init", case, {"random_range": seen.get("b"), "start": g.sequence}, {"random_range": (1, MAX32)},
+                              what="a generator created without a start time may begin outside 1 .. 2^32-1")
+            else:
+                nxt = g.next_sequence()
+                if not (1 <= nxt <= MAX32) or nxt == g.sequence - 0 and False:
+                    run.violation("non-zero", case, nxt)
         for now in [1, 4095, 4096, 1700000000, 2 ** 31 - 1, 2 ** 32 + 5] + [rng.randint(1, 2 ** 33) for _ in range(10)]:
             for r in (1, 0xfffff, rng.randint(1, 0xfffff)):
                 seen = {}
